@@ -37,7 +37,7 @@ package notification
 // for a retry at the time nextAttemptAt computed.
 //@ func (*StorageMiddleware).dispatchEntry
 //@ mode effects
-//@ requires entry != nil
+//@ requires entry != nil && m.dispatcher.MinBackoff > 0 && m.dispatcher.MinBackoff <= m.dispatcher.MaxBackoff
 //@ ensures[C22:published-entry-deleted] called(m.publisher.Publish) && result_of(m.publisher.Publish, 0) == nil ==> called(m.deleteClaimed) && !called(m.deadLetter) && !called(m.release)
 //@ ensures[C22:failed-entry-kept] called(m.publisher.Publish) && result_of(m.publisher.Publish, 0) != nil ==> !called(m.deleteClaimed) && (called(m.deadLetter) || called(m.release)) && !(called(m.deadLetter) && called(m.release))
 //@ effect[C22:dead-letter-only-when-exhausted] every m.deadLetter(_, $e, _) where $e != nil && m.dispatcher.MaxAttempts > 0 && $e.Attempts >= m.dispatcher.MaxAttempts
@@ -66,6 +66,9 @@ package notification
 //@ property C22
 //@ mode effects
 //@ frame
+//@ requires entry != nil && m.dispatcher.MinBackoff > 0 && m.dispatcher.MinBackoff <= m.dispatcher.MaxBackoff
+//@ effect[C22:retry-delay-within-the-configured-bounds] every returns() needs before time.Now() -> ($now)
+//@     where result.Sub($now) >= m.dispatcher.MinBackoff && result.Sub($now) <= m.dispatcher.MaxBackoff
 
 //@ func (*notificationMetrics).recordRetry
 //@ property C22
@@ -76,3 +79,11 @@ package notification
 //@ property C22
 //@ mode effects
 //@ frame
+
+// Every mutation that produces events reaches the wrapped storage only from inside the function handed to
+// runWithNotifications, i.e. inside the transaction the outbox insert shares: the method itself never calls the wrapped
+// storage.
+//@ methods m *StorageMiddleware of storage.Storage in PutObject CopyObject CompleteMultipartUpload DeleteObject DeleteObjects PutObjectTagging DeleteObjectTagging TransitionObjectStorageClass
+//@ mode effects
+//@ effect[C22:mutation-only-inside-the-shared-transaction] never m.Next.$M(__)
+//@ effect[C22:mutation-goes-through-the-shared-transaction] every m.runWithNotifications(_, $f) where $f != nil
